@@ -117,3 +117,10 @@ impl<K, V> HashMap<K, V> {
         ensures entries_of(self@, r@),
     { unimplemented!() }
 }
+
+// A-std: documented semantics of `Option::map_or` (vstd ships no specification for it; `map`, `and_then`, `unwrap_or`, ... it
+// does). Listed as an assumption wherever extracted code uses it. Present so that a rewrite of an `if let`/`match` into the
+// combinator stays decidable instead of "unsupported construct".
+pub assume_specification<T, U, F: FnOnce(T) -> U>[Option::<T>::map_or](o: Option<T>, default: U, f: F) -> (r: U)
+    requires o matches Some(x) ==> f.requires((x,)),
+    ensures match o { Some(x) => f.ensures((x,), r), None => r == default };
